@@ -217,6 +217,19 @@ def groupify (grouping : Option (List (List Nat))) (l : List String) : List GInp
       | [i] => .one (l.getD i "")
       | _ => .many (g.map (fun i => l.getD i "")))
 
+/-- the entries a group's result contributes: a one-input group holds one short-form result, a larger group the
+    `input_list` of a nested grader -/
+def groupItems (g : List Nat) (r : SubRes) : List IRes :=
+  match g, r with
+  | [_], .single x => [x]
+  | [_], .multi l => l.take 1 |>.drop 1   -- `[items]` holding a list: not an entry (never produced by valid configs)
+  | _, .single _ => []
+  | _, .multi l => l
+
+/-- the assignments `output[idx] = item` performed by `ungroupify_list`, in execution order -/
+def groupWrites (gs : List (List Nat)) (nested : List SubRes) : List (Nat × IRes) :=
+  (gs.zip nested).flatMap (fun p => p.1.zip (groupItems p.1 p.2))
+
 /-- `ungroupify_list(grouping, grouped_list)`; positions never written hold `none` -/
 def ungroupify (grouping : Option (List (List Nat))) (nested : List SubRes) : List (Option IRes) :=
   match grouping with
@@ -225,13 +238,7 @@ def ungroupify (grouping : Option (List (List Nat))) (nested : List SubRes) : Li
       | .multi _ => [none])       -- a long-form result without grouping cannot be placed (Python stores the list itself)
   | some gs =>
     let len := (gs.flatten.foldl max 0) + 1
-    let writes : List (Nat × IRes) := (gs.zip nested).flatMap (fun p =>
-      let items := match p.1, p.2 with
-        | [_], .single r => [r]
-        | [_], .multi l => l.take 1 |>.drop 1   -- `[items]` holding a list: not an entry (never produced by valid configs)
-        | _, .single _ => []
-        | _, .multi l => l
-      p.1.zip items)
+    let writes := groupWrites gs nested
     (List.range len).map (fun i => (writes.reverse.find? (fun w => w.1 == i)).map (·.2))
 
 structure LCfg where
